@@ -1380,9 +1380,10 @@ class Vector():
 				raise SerifTypeError("Cannot concatenate two typesafe Vectors of different types")
 			# dtype is inferred from the concatenated values (never reuse self's dtype:
 			# the appended values may be None or of another kind)
-			return Vector(self._underlying + other._underlying)
+			# (list(...): `t + ()` is t itself, and a vector built over the operand's own tuple would share its storage)
+			return Vector(list(self._underlying + other._underlying))
 		if isinstance(other, Iterable) and not isinstance(other, (str, bytes, bytearray)):
-			return Vector(self._underlying + tuple(other))
+			return Vector(list(self._underlying + tuple(other)))
 		return Vector(self._underlying + (other,))
 
 
@@ -1416,7 +1417,8 @@ class Vector():
 		"""
 		# Convert other to Vector and concatenate with self
 		if isinstance(other, Iterable) and not isinstance(other, (str, bytes, bytearray)):
-			return Vector(tuple(other) + self._underlying,
+			# (list(...): `() + t` is t itself - never build the result over self's own tuple)
+			return Vector(list(tuple(other) + self._underlying),
 				None,  # other doesn't have a default element
 				None,
 				False)
